@@ -287,6 +287,8 @@ func programs() []prog {
 		{name: "filter-error-pluralize-args", src: "{% if flag %}{{ n|pluralize:\"a,b,c\" }}{% else %}\n\n {{ n|pluralize:\"a,b,c\" }}{% endif %}"},
 		{name: "macro-deep", src: "{% macro r(k) %}{% if k > 0 %}{{ r(k - 1) }}{% endif %}{% endmacro %}{{ r(600) }}{{ n }}"},
 		{name: "import-deep", src: "{% import \"deeplib\" r %}{{ r(600) }}{{ n }}", files: map[string]string{"/deeplib": "{% macro r(k) export %}{% if k > 0 %}{{ r(k - 1) }}{% endif %}{% endmacro %}"}},
+		{name: "slice-negative", src: `{{ l|slice:"-2:"|join:"," }}|{{ l|slice:":-1"|join:"," }}|{{ l|slice:"2:"|join:"," }}|{{ s|slice:"-1:" }}|{{ s|slice:"1:5" }}|{{ l|slice:"-5:-1"|join:"," }}`},
+		{name: "filter-param-list", src: `{{ e|default:[n, s, "end"]|join:"/" }}{% for x in e|default:[s, n] %}{{ x }}{% endfor %}{{ [n, s]|join:"-"|upper }}{% if [n]|first > 1 %}big{% endif %}`},
 		{name: "globals-sorted", src: `{% for i in gl sorted %}{{ i }}{% endfor %}|{% for i in gl %}{{ i }}{% endfor %}|{% for x in gs reversed sorted %}{{ x }}{% endfor %}{{ gs|join:"," }}|{% for k, v in gm sorted %}{{ k }}{{ v }}{% endfor %}{{ gl|slice:"1:" }}{{ gl|first }}{{ gs|last }}`},
 		{name: "whitespace-dash", src: " a \n{%- if flag -%}\n b \n{%- endif %}\n{{- n -}}\n c "},
 	}
